@@ -250,11 +250,23 @@ func TestC05(t *testing.T) {
 				continue
 			}
 			f := &tls.Fingerprinter{}
-			for k := 0; k < 6; k++ {
+			for k := 0; k < 10; k++ {
 				// k >= 3: the same capture as another stack would have sent it, with a legacy_session_id
 				// of another length (empty as in QUIC / TLS 1.2-style hellos, 8, 16 bytes)
 				sidLen := 32
-				if k >= 3 {
+				if k >= 6 {
+					// the same capture as a stack with another padding policy would have sent it:
+					// padding bodies beyond what BoringSSL ever produces (it stops at 252 bytes)
+					body := []int{253, 300, 700, 1000}[k-6]
+					exts := cloneExts(cch.Exts)
+					for ei := range exts {
+						if exts[ei].Type == wire.ExtPadding {
+							exts[ei].Data = make([]byte, body)
+						}
+					}
+					capRaw = marshalCH(cch, exts, true)
+					r.Count("captures_with_non_boring_padding", 1)
+				} else if k >= 3 {
 					sidLen = []int{0, 8, 16}[k-3]
 					c2 := *cch
 					c2.SessionID = cch.SessionID[:sidLen]
